@@ -118,7 +118,16 @@ def confirm(pid, h, what, scratches, keep=False, features=()):
     }
     with open(path, "w") as f:
         json.dump(rec, f, indent=1)
-    return {"reproduced": bool(r["ran"] and r["failed"]), "detail": r["detail"] or r.get("output", "")[-300:], "path": path}
+    return {"reproduced": bool(r["ran"] and r["failed"] and matches(what, r["detail"])),
+            "detail": r["detail"] or r.get("output", "")[-300:], "path": path}
+
+
+def matches(what, native_detail):
+    """The native failure must be the one the solver reported: the same property assertion,
+    or -- for a panic inside the code under test -- a panic that is not a harness assertion."""
+    if what.startswith("panic:"):
+        return "VERIF" not in native_detail
+    return ("VERIF:" + what) in native_detail
 
 
 def replay_file(pid, path, keep=False):
@@ -129,7 +138,7 @@ def replay_file(pid, path, keep=False):
         return 2
     r = native_replay(hs[0], rec["input_hex"], keep=keep)
     print(r["output"])
-    if r["ran"] and r["failed"]:
+    if r["ran"] and r["failed"] and matches(rec.get("failing", ""), r["detail"]):
         print("VIOLATION property=%s replay=%s" % (pid, path))
         return 1
     if not r["ran"]:
